@@ -17,12 +17,36 @@ theorem sumOver_cons (e : Em) (w : List Em) (f : Em → Int) :
 /-- emission `e` is emitting at the end of day `n` (always true for persistent sources) -/
 def emittingAfter (e : Em) (n : Nat) : Bool := isEmitting e.p (st e (n + 1))
 
+/-- the other reading of "emitting at the end of day `n`": `e` was emitting *during* day `n`, i.e.
+the flag the daily update of day `n` finds — the one `days_emitting` counts (`daysEmitting_step`).
+`emittingAfter` is the flag *after* the toggle of that update, i.e. `is_emitting()` at the moment the
+row of day `n` is written; the two are one day apart (`emitting_conventions`).  The property text
+("active and emitting at the end of that day") is formalised with `emittingAfter` in `C11_statement`
+and with `emittingDuring` in `C11_statement_during`; for persistent sources both hold, for
+intermittent sources both fail on the same witness (`f4bWitness_day1`).
+(`mid`, `emittingDuring`, `emittingSum` are defined in Model/World.lean.) -/
+theorem emittingDuring_def (e : Em) (n : Nat) : emittingDuring e n = isEmitting e.p (mid e n) := rfl
+
+/-- the sums the driver prints for the correspondence are the right-hand sides of the two statements -/
+theorem emittingSum_eq (w : List Em) (n : Nat) :
+    emittingSum w n true = sumOver w (fun e => ind (activeAt e (n + 1) && emittingAfter e n) * e.rate) ∧
+    emittingSum w n false = sumOver w (fun e => ind (activeAt e (n + 1) && emittingDuring e n) * e.rate) :=
+  ⟨rfl, rfl⟩
+
 /-- C11 at full strength -/
 def C11_statement : Prop :=
   ∀ (w : List Em) (n : Nat),
     (row w n).active = prevActive w n + (row w n).new - (row w n).repaired
         - (row w n).natRepaired - (row w n).expired
     ∧ (row w n).emis = sumOver w (fun e => ind (activeAt e (n + 1) && emittingAfter e n) * e.rate)
+    ∧ (row w n).emis = (row w n).emisMit + (row w n).emisNonMit
+
+/-- C11 with "emitting" read as "emitting during the day" (consistent with `days_emitting`) -/
+def C11_statement_during : Prop :=
+  ∀ (w : List Em) (n : Nat),
+    (row w n).active = prevActive w n + (row w n).new - (row w n).repaired
+        - (row w n).natRepaired - (row w n).expired
+    ∧ (row w n).emis = sumOver w (fun e => ind (activeAt e (n + 1) && emittingDuring e n) * e.rate)
     ∧ (row w n).emis = (row w n).emisMit + (row w n).emisNonMit
 
 /-! ### ledger -/
@@ -94,15 +118,55 @@ theorem C11_partial (w : List Em) (n : Nat) (h : ∀ e ∈ w, e.p.intermittent =
     ∧ (row w n).emis = (row w n).emisMit + (row w n).emisNonMit :=
   ⟨ledger w n, emis_active_emitting_partial w n h, emis_split w n⟩
 
+theorem emis_active_emitting_during_partial (w : List Em) (n : Nat)
+    (h : ∀ e ∈ w, e.p.intermittent = false) :
+    (row w n).emis = sumOver w (fun e => ind (activeAt e (n + 1) && emittingDuring e n) * e.rate) := by
+  simp only [row]
+  induction w with
+  | nil => rfl
+  | cons e w ih =>
+    simp only [sumOver_cons]
+    rw [ih (fun x hx => h x (by simp [hx]))]
+    have : emittingDuring e n = true := by
+      unfold emittingDuring isEmitting; simp [h e (by simp)]
+    simp [this]
+
+theorem C11_during_partial (w : List Em) (n : Nat) (h : ∀ e ∈ w, e.p.intermittent = false) :
+    (row w n).active = prevActive w n + (row w n).new - (row w n).repaired
+        - (row w n).natRepaired - (row w n).expired
+    ∧ (row w n).emis = sumOver w (fun e => ind (activeAt e (n + 1) && emittingDuring e n) * e.rate)
+    ∧ (row w n).emis = (row w n).emisMit + (row w n).emisNonMit :=
+  ⟨ledger w n, emis_active_emitting_during_partial w n h, emis_split w n⟩
+
+/-- the F4b witness: one intermittent source, on 1 day / off 2 days, rate 1, started on day 0 -/
+def f4bWitness : List Em :=
+  [{ p := { start := 0, nrd := 10, repairDelay := 0, repairable := true,
+            intermittent := true, activeDur := 1, inactiveDur := 2 },
+     rate := 1, ev := fun _ => [] }]
+
+/-- on day 1 the witness is active, did not emit during the day (`days_emitting` unchanged) and is
+not emitting at its end — whichever way "emitting" is read — and the row still shows its rate.
+(The earlier witness "on 1 / off 1, day 0" was an artefact of the after-update reading: that emission
+*did* emit during day 0 and `days_emitting` counts the day.) -/
+theorem f4bWitness_day1 :
+    (row f4bWitness 1).active = 1 ∧ (row f4bWitness 1).emis = 1 ∧
+    (∀ e ∈ f4bWitness, emittingAfter e 1 = false ∧ emittingDuring e 1 = false ∧
+        (st e 2).daysEmitting = (st e 1).daysEmitting) := by
+  decide +kernel
+
 /-- Known finding F4b: for intermittent sources the daily emissions include active emissions that
-are currently *not emitting* (`update_emissions_state` adds `get_daily_emis()` of every emission that
-stays active).  Witness: one intermittent source (on 1 / off 1), rate 1: after day 0 it is active and
-not emitting, yet the row shows its rate. -/
+are *not emitting* (`update_emissions_state` adds `get_daily_emis()` of every emission that stays
+active; `is_emitting()` is not consulted).  Witness: `f4bWitness`, day 1. -/
 theorem C11_counterexample : ¬ C11_statement := by
   intro h
-  have := (h [{ p := { start := 0, nrd := 10, repairDelay := 0, repairable := true,
-                       intermittent := true, activeDur := 1, inactiveDur := 1 },
-                rate := 1, ev := fun _ => [] }] 0).2.1
+  have := (h f4bWitness 1).2.1
+  revert this
+  decide +kernel
+
+/-- ... and the same witness refutes the statement under the `days_emitting` reading -/
+theorem C11_during_counterexample : ¬ C11_statement_during := by
+  intro h
+  have := (h f4bWitness 1).2.1
   revert this
   decide +kernel
 
@@ -146,6 +210,9 @@ def endedAs (r : Rec) (k : Nat) : Bool :=
   | 0 => decide (r.status = .repaired) && !decide (r.by_ = .natural)   -- repaired by the program
   | 1 => decide (r.status = .repaired) && decide (r.by_ = .natural)    -- naturally repaired
   | _ => decide (r.status = .expired)                                   -- expired
+
+theorem endedAs_eq (r : Rec) (k : Nat) : endedAs r k = recEndedAs r k := by
+  rcases k with _ | _ | k <;> rfl
 
 def endedOnAs (e : Em) (n : Nat) (k : Nat) : Bool :=
   match k with
@@ -362,6 +429,200 @@ theorem reconstruct (w : List Em) (N n : Nat) (h : n < N) :
   simp only [row]
   refine ⟨?_, ?_, ?_, ?_⟩ <;> (congr 1; funext e; rw [hr e]; try rfl)
 
+/-! ### per-day reconstruction of the count columns -/
+
+/-- once activated, an emission never returns to the pending state -/
+theorem present_mono (e : Em) (m k : Nat) (h : (st e m).status ≠ .inactive) :
+    (st e (m + k)).status ≠ .inactive := by
+  induction k with
+  | zero => exact h
+  | succ k ih =>
+    have := em_new_step e (m + k)
+    have e1 : st e (m + (k + 1)) = st e ((m + k) + 1) := rfl
+    rw [e1]; unfold ind at this; intro hc
+    simp [hc, ih] at this
+    split at this <;> omega
+
+/-- an emission is counted in "New Leaks" of day `n` exactly when it has a record and
+`max start 0 = n` -/
+theorem reconstruct_new (e : Em) (N n : Nat) (h : n < N) :
+    isNew e n = recNewOn (recOf e N) n := by
+  obtain ⟨j, rfl⟩ : ∃ j, N = (n + 1) + j := ⟨N - (n + 1), by omega⟩
+  have ln := life e n
+  have ha : a e.p = if e.p.start > 0 then e.p.start else 0 := rfl
+  unfold isNew recNewOn recOf
+  simp only [← ha]
+  cases hs : (st e n).status
+  · have hle := ln.1 hs
+    by_cases hn : e.p.start ≤ (n : Int)
+    · have hnew : isNew e n = true := by unfold isNew; simp [hs, hn]
+      have h1 := em_new_step e n
+      have hp : (st e (n + 1)).status ≠ .inactive := by
+        intro hc; unfold ind at h1; simp [hc, hs, hnew] at h1
+      have := present_mono e (n + 1) j hp
+      have haeq : a e.p = (n : Int) := by rw [ha] at hle ⊢; split at hle <;> split <;> omega
+      simp [hn, this, haeq]
+    · have : ¬ a e.p = (n : Int) := by rw [ha]; split <;> omega
+      simp [hn, this]
+  · have := (ln.2.1 hs).1
+    have : ¬ a e.p = (n : Int) := by omega
+    simp [this]
+  · have := (ln.2.2 (Or.inl hs)); have : ¬ a e.p = (n : Int) := by omega
+    simp [this]
+  · have := (ln.2.2 (Or.inr hs)); have : ¬ a e.p = (n : Int) := by omega
+    simp [this]
+
+/-- nothing ends in the update of day `n` unless the emission is repaired / expired afterwards -/
+theorem endedOnAs_false (e : Em) (n k : Nat)
+    (h : (st e (n + 1)).status = .inactive ∨ (st e (n + 1)).status = .active) :
+    endedOnAs e n k = false := by
+  rcases k with _ | _ | k <;> rcases h with h | h <;>
+    simp [endedOnAs, repairedOn, natRepairedOn, expiredOn, endedOn, activeAt, h]
+
+theorem recEndedOn_false (r : Rec) (k n : Nat)
+    (h : r.status = .inactive ∨ r.status = .active ∨ r.endDate ≠ some ((n : Int) + 1)) :
+    recEndedOn r k n = false := by
+  unfold recEndedOn
+  rcases h with h | h | h
+  · rcases k with _ | _ | k <;> simp [recEndedAs, h]
+  · rcases k with _ | _ | k <;> simp [recEndedAs, h]
+  · simp [h]
+
+/-- an emission that is repaired / expired after day `n` left the active list in the update of day
+`n` exactly when its end date is day `n + 1` -/
+theorem endedOn_iff (e : Em) (n : Nat)
+    (hend : (st e (n + 1)).status = .repaired ∨ (st e (n + 1)).status = .expired) :
+    endedOn e n = decide ((st e (n + 1)).endDate = some ((n : Int) + 1)) := by
+  have ln := life e n
+  have ls := (life e (n + 1)).2.2 hend
+  have hna : ¬ (st e (n + 1)).status = .active := by rcases hend with h | h <;> rw [h] <;> decide
+  rcases em_step_cases e n with ⟨h1, h2, _⟩ | ⟨_, _, h3⟩ | ⟨h1, _⟩ | ⟨h1, h3⟩
+  · have hle := ln.1 h1
+    have : (st e (n + 1)).endDate = some ((n : Int) + 1) := by
+      rw [ls.1]; congr 1; have := ls.2.1; have := ls.2.2; push_cast at *; omega
+    simp [endedOn, activeAt, isNew, h1, h2, hna, this]
+  · rcases hend with h | h <;> rw [h3] at h <;> cases h
+  · have hl := ln.2.1 h1
+    have hd : (st e (n + 1)).activeDays = (st e n).activeDays + 1 := by
+      rw [st_succ]; exact dayE_activeDays _ _ _ _ h1
+    have : (st e (n + 1)).endDate = some ((n : Int) + 1) := by
+      rw [ls.1, hd, hl.2.1]; congr 1; omega
+    simp [endedOn, activeAt, h1, hna, this]
+  · have hl := ln.2.2 h1
+    have hni : ¬ (st e n).status = .inactive := by rcases h1 with h | h <;> rw [h] <;> decide
+    have hnact : ¬ (st e n).status = .active := by rcases h1 with h | h <;> rw [h] <;> decide
+    have : ¬ (st e (n + 1)).endDate = some ((n : Int) + 1) := by
+      rw [h3, hl.1]; intro hc; injection hc with hc; have := hl.2.2; omega
+    simp [endedOn, activeAt, isNew, hni, hnact, this]
+
+/-- the repaired / expired case of `reconstruct_ended` -/
+theorem ended_case (e : Em) (n j k : Nat)
+    (hs : (st e (n + 1)).status = .repaired ∨ (st e (n + 1)).status = .expired) :
+    endedOnAs e n k = recEndedOn (recOf e (n + 1 + j)) k n := by
+  have hfz := frozen_from e (n + 1) j hs
+  have hi := endedOn_iff e n hs
+  unfold recEndedOn recOf
+  simp only [hfz]
+  rcases k with _ | _ | k <;>
+    simp only [endedOnAs, repairedOn, natRepairedOn, expiredOn, recEndedAs, hi] <;>
+    cases decide ((st e (n + 1)).endDate = some ((n : Int) + 1)) <;> simp
+
+/-- whether an emission was repaired by the program (`k = 0`), naturally repaired (`k = 1`) or
+expired (`k = 2`) in the update of day `n` can be read off its record: that end kind, and end date
+`n + 1` -/
+theorem reconstruct_ended (e : Em) (N n k : Nat) (h : n < N) :
+    endedOnAs e n k = recEndedOn (recOf e N) k n := by
+  obtain ⟨j, rfl⟩ : ∃ j, N = (n + 1) + j := ⟨N - (n + 1), by omega⟩
+  have ln := life e n
+  have ls := life e (n + 1)
+  have lf := life e (n + 1 + j)
+  cases hs : (st e (n + 1)).status
+  · -- still pending after day n
+    rw [endedOnAs_false e n k (Or.inl hs)]
+    symm; apply recEndedOn_false
+    have h1 := ls.1 hs
+    cases hN : (st e (n + 1 + j)).status
+    · exact Or.inl (by simp [recOf, hN])
+    · exact Or.inr (Or.inl (by simp [recOf, hN]))
+    · right; right
+      have := lf.2.2 (Or.inl hN)
+      simp only [recOf, this.1]; intro hc; injection hc with hc; push_cast at h1; omega
+    · right; right
+      have := lf.2.2 (Or.inr hN)
+      simp only [recOf, this.1]; intro hc; injection hc with hc; push_cast at h1; omega
+  · -- active after day n
+    rw [endedOnAs_false e n k (Or.inr hs)]
+    symm; apply recEndedOn_false
+    rcases after_active e (n + 1) hs j with hact | ⟨hend, hge⟩
+    · exact Or.inr (Or.inl (by simp [recOf, hact]))
+    · right; right
+      have := lf.2.2 hend
+      simp only [recOf, this.1]; intro hc; injection hc with hc; push_cast at hge; omega
+  · exact ended_case e n j k (Or.inl hs)
+  · exact ended_case e n j k (Or.inr hs)
+
+/-! ### every column of every row from the records -/
+
+theorem sumOver_records (w : List Em) (N : Nat) (f : Rec → Int) :
+    sumRecs (records w N) f = sumOver w (fun e => f (recOf e N)) := by
+  simp only [sumRecs, records, sumOver, List.map_map]; rfl
+
+/-- C11 reconstruction at full strength: the complete row of every simulated day — new, active,
+repaired, naturally repaired, expired, emissions, mitigable and non-mitigable emissions — is the
+function `recRow` (Model/World.lean) of the records' start dates, end dates, end kinds, rates and
+repairability alone -/
+theorem reconstruct_row (w : List Em) (N n : Nat) (h : n < N) :
+    row w n = recRow (records w N) n := by
+  have ha : ∀ e : Em, activeAt e (n + 1) = recActiveAfter (recOf e N) n :=
+    fun e => reconstruct_em e N n h
+  have hn : ∀ e : Em, isNew e n = recNewOn (recOf e N) n := fun e => reconstruct_new e N n h
+  have h0 : ∀ e : Em, repairedOn e n = recEndedOn (recOf e N) 0 n := fun e => reconstruct_ended e N n 0 h
+  have h1 : ∀ e : Em, natRepairedOn e n = recEndedOn (recOf e N) 1 n := fun e => reconstruct_ended e N n 1 h
+  have h2 : ∀ e : Em, expiredOn e n = recEndedOn (recOf e N) 2 n := fun e => reconstruct_ended e N n 2 h
+  simp only [row, recRow, sumOver_records, ha, hn, h0, h1, h2]
+  rfl
+
+/-! ### the two readings of "emitting at the end of the day" -/
+
+theorem st_succ_mid (e : Em) (n : Nat) : st e (n + 1) = update e.p (mid e n) := rfl
+
+theorem events_emit (p : Params) (d : Int) (evs : List Ev) (s : State) :
+    (evs.foldl (fun s e => applyEv p d e s) s).emitting = s.emitting ∧
+    (evs.foldl (fun s e => applyEv p d e s) s).daysEmitting = s.daysEmitting := by
+  induction evs generalizing s with
+  | nil => exact ⟨rfl, rfl⟩
+  | cons e evs ih =>
+    simp only [List.foldl_cons]
+    rw [(ih _).1, (ih _).2]
+    cases e with
+    | tag e => simp only [applyEv]; unfold tag detectRec; grind
+    | detect c => simp only [applyEv]; unfold detectRec; grind
+
+/-- the two readings of "emitting at the end of day `n`" are one day apart: the flag after the
+update of day `n` is the flag the update of day `n + 1` finds -/
+theorem emitting_conventions (e : Em) (n : Nat) (h : activeAt e (n + 1) = true) :
+    emittingAfter e n = emittingDuring e (n + 1) := by
+  unfold emittingAfter emittingDuring mid isEmitting
+  have hs : (st e (n + 1)).status = .active := by simpa [activeAt] using h
+  have ha : activate e.p ((n + 1 : Nat) : Int) (st e (n + 1)) = st e (n + 1) := by
+    unfold activate; simp [hs]
+  rw [ha, (events_emit _ _ _ _).1]
+
+/-- `days_emitting` of an intermittent emission that stays active counts exactly the days on which it
+was emitting *during* the day -/
+theorem daysEmitting_step (e : Em) (n : Nat) (hi : e.p.intermittent = true)
+    (h : activeAt e (n + 1) = true) :
+    (st e (n + 1)).daysEmitting = (st e n).daysEmitting + ind (emittingDuring e n) := by
+  have hs : (st e (n + 1)).status = .active := by simpa [activeAt] using h
+  rw [st_succ_mid] at hs
+  have hm : (mid e n).daysEmitting = (st e n).daysEmitting := by
+    unfold mid; rw [(events_emit _ _ _ _).2]; unfold activate; split <;> rfl
+  rw [st_succ_mid, ← hm]
+  unfold emittingDuring isEmitting ind
+  generalize mid e n = s at *
+  unfold update toggle at *
+  grind
+
 /-- non-vacuity: a three-emission world over 6 days -/
 example :
     let p1 : Params := { start := -2, nrd := 5, repairDelay := 1, repairable := true,
@@ -371,7 +632,9 @@ example :
     let w : List Em := [{ p := p1, rate := 2, ev := fun d => if d = 1 then [.tag { company := 1, trd := 0 }] else [] },
                         { p := p2, rate := 4, ev := fun _ => [] }]
     (row w 0).new = 1 ∧ (row w 1).active = 1 ∧ (row w 1).repaired = 1 ∧ (row w 3).expired = 1 ∧
-    (row w 2).emis = 4 := by
+    (row w 2).emis = 4 ∧
+    (recRow (records w 6) 0).new = 1 ∧ (recRow (records w 6) 1).repaired = 1 ∧
+    (recRow (records w 6) 3).expired = 1 ∧ (recRow (records w 6) 2).emis = 4 := by
   decide +kernel
 
 end LdarModel.World
